@@ -273,6 +273,41 @@ def up_framing(ctx):
         ob.unknown("no driver of %s found" % sink)
 
 
+def up_capacity(ctx):
+    ob = ctx.ob("C07.7", "up-converter read capacity: the wide read commands that can be in flight (committed-command buffer depth + the one being issued) fit the FIFO that takes the "
+                         "returned wide words - the memory side returns read data without waiting for ready", 1)
+    from ..bits import ieval, Unresolved
+    v = up_view(ctx, None, False)
+    fifos = [o for o in v.d.objs if o.cls == "SyncFIFO"]
+    def lay_has(o, name):
+        l = o.kwargs.get("layout", o.args[0] if o.args else None)
+        return isinstance(l, ListV) and any(isinstance(e, ListV) and e.items and isinstance(e.items[0], Const) and e.items[0].v == name for e in l.items)
+    cb = [o for o in fifos if lay_has(o, "sel")]
+    rf = [o for o in fifos if any(l.kind == "connect" and key(l.value) == "port_to.rdata" and key(l.target) == str(o) + ".sink" for l in v.leaves)]
+    if not ob.need(len(cb) == 1 and len(rf) == 1, "committed-command buffer / returned-data FIFO of the up-converter not identified (%d / %d)" % (len(cb), len(rf))):
+        return
+    dcb = cb[0].kwargs.get("depth", cb[0].args[1] if len(cb[0].args) > 1 else None)
+    drf = rf[0].kwargs.get("depth", rf[0].args[1] if len(rf[0].args) > 1 else None)
+    ob.instance("depths", {"command buffer": key(dcb) if dcb is not None else None, "returned-data FIFO": key(drf) if drf is not None else None})
+    if dcb is None or drf is None:
+        ob.unknown("FIFO depth arguments not found")
+        return
+    bad = []
+    try:
+        for ratio in (2, 4, 8):
+            env = {"port_to.data_width": 32 * ratio, "port_from.data_width": 32}
+            a_, b_ = ieval(dcb, env), ieval(drf, env)
+            if a_ + 1 > max(b_, 1):
+                bad.append((ratio, a_, b_))
+    except Unresolved as e:
+        ob.unknown("depths not evaluable (%s)" % e)
+        return
+    if bad:
+        r_, a_, b_ = bad[0]
+        ob.refute("up-read-capacity", "at ratio %d the up-converter can have %d wide reads in flight (command buffer depth %d + the one being issued) but the FIFO taking the "
+                  "returned words holds %d: a word returned in the cycle after another one is lost" % (r_, a_ + 1, a_, max(b_, 1)), cb[0].loc)
+
+
 def addr_width(ctx):
     ob = ctx.ob("C07.3", "address-width adjustment: a port converted to another data width keeps the same byte capacity "
                          "(aw_user + log2(dw_user) = aw_native + log2(dw_native)) in all three copies of the computation (crossbar.get_port, "
@@ -360,6 +395,7 @@ def run(ctx):
     down(ctx)
     up(ctx)
     up_framing(ctx)
+    up_capacity(ctx)
     addr_width(ctx)
     lane_order(ctx)
     ctx.assume("stream.StrideConverter / stream.SyncFIFO contracts (LiteX); data values, FIFO occupancy interleavings and the read_lock race are not decided")
